@@ -1354,12 +1354,8 @@ class BinBytes(SimpleCorr):
         out = []
         for cid, lines in blocks:
             io, mo = impl.get(cid, []), list(model.get(cid, []))
-            big = bool(mo) and mo[-1] == "BIGALLOC"
-            if big:
-                mo = mo[:-1]
-                continue_ok = True      # an input field asks for > 64 MiB: abort or any later outcome is possible
-                if continue_ok:
-                    continue
+            if mo and mo[-1] == "BIGALLOC":
+                continue                # an input field asks for > 64 MiB: abort or any later outcome is possible
             if io != mo:
                 k = 0
                 while k < min(len(io), len(mo)) and io[k] == mo[k]:
@@ -1672,3 +1668,44 @@ def binary_migration_stage(pid, d, seed, tier):
 
 
 REGISTRY["C15"] = Migration()
+
+
+# =====================================================================================
+# C07: determinism and re-save stability of BOTH serializers
+#   binary: BinFile correspondence + its C07 oracle lines (rebuild with other Refs / insertion order, resave fixed point)
+#   XML:    the C07 oracle lines of xmlfile-run
+#   both:   the same cases serialized again in a SECOND PROCESS (other hash seeds / ASLR) must give the same bytes
+# =====================================================================================
+class Determinism(BinFile):
+    def known_key(self, pid, oracle_line, case_lines):
+        l = oracle_line[2:] if oracle_line.startswith("- ") else oracle_line
+        t = l.split(" ")
+        return t[2] if len(t) > 2 else None
+
+    def extra(self, pid, out, tier, seed, d):
+        lines = []
+        # XML side, two processes
+        xl, xb, xs, differ = xml_oracle_stage(pid, d, seed, tier, [("dom", 600), ("bin", 200), ("unknown", 100)], tag="x7", second_process=True)
+        lines += xl
+        lines += ["%s C07 xml-cross-process the same DOM serialized by rbx_xml in two processes gives different text" % cid for cid in differ[:5]]
+        out.coverage["xml_stage"] = {"cases": len(xb), "c07_checked": xs.get("c07_checked", 0), "oracle_lines": len(xl), "cross_process_differences": len(differ)}
+        # binary side, second process on the cases of the main run
+        cases, first = os.path.join(d, "main.cases"), os.path.join(d, "main.impl")
+        if os.path.exists(cases) and os.path.exists(first):
+            obs, orc, st = [os.path.join(d, "second" + x) for x in (".impl", ".oracle", ".stats")]
+            rc, o, _ = vlib.run([vlib.harness_bin(), "binfile-run", cases, obs, orc, st], timeout=6000)
+            if rc == 0:
+                a, b = dict(vlib.read_blocks(first)), dict(vlib.read_blocks(obs))
+                # compare the serializer's bytes only (decoded DOMs may legitimately contain freshly generated UniqueIds)
+                def enc(ls):
+                    return [x for x in ls if x.startswith("BYTES") or x.startswith("ENC") or x.startswith("enc")]
+                bd = [cid for cid in a if enc(a[cid]) != enc(b.get(cid, []))]
+                two = set(l.split(" ")[0] for l in open(orc) if " INFO two-spellings" in l)
+                for cid in bd[:8]:
+                    key = "bin-cross-process-two-spellings" if cid in two else "bin-cross-process"
+                    lines.append("%s C07 %s the same DOM serialized by rbx_binary in two processes gives different bytes" % (cid, key))
+                out.coverage["binary_second_process"] = {"cases": len(a), "differences": len(bd)}
+        return lines
+
+
+REGISTRY["C07"] = Determinism()
